@@ -580,8 +580,11 @@ func (a *Application) startProxyGoroutine(
 			if rec := recover(); rec != nil {
 				a.logger.Error("Panic in streaming proxy goroutine", "panic", rec, "model", pr.model)
 				streamRecorder.ensureHeadersReady()
-				pipeWriter.Close()
-				proxyErrChan <- fmt.Errorf("proxy panic: %v", rec)
+				// like any other failed attempt: the translator must see an error, not a clean end
+				// of stream that it would finish as a complete message
+				panicErr := fmt.Errorf("proxy panic: %v", rec)
+				pipeWriter.CloseWithError(panicErr)
+				proxyErrChan <- panicErr
 			}
 		}()
 		localCtx, localR := a.prepareProxyContext(ctx, r, pr)
